@@ -195,7 +195,11 @@ impl LsmVerifier {
                 let setsum = Setsum::from_hexdigest(rmed)
                     .ok_or_else(|| corruption(format!("manifest rmed has bad digest: {rmed}")))?;
                 computed_discard += setsum;
-                ssts_to_remove.push(setsum);
+                // An edit that removes and adds the same file (a compaction that reproduced one of
+                // its inputs) leaves that file in place; it is not trash.
+                if !edit.added().any(|added| added == rmed) {
+                    ssts_to_remove.push(setsum);
+                }
             }
             if !first {
                 if let Some(log_num) = edit.get_info('L') {
